@@ -179,7 +179,7 @@ def diffstat_lines(rng, paths):
 
 # ---------------------------------------------------------------- combined diffs / merge conflicts
 
-def gen_combined(rng, conflict=False, nparents=2, nhunks=1, nconflicts=1, styles=('diff3',), lead=None):
+def gen_combined(rng, conflict=False, nparents=2, nhunks=1, nconflicts=1, styles=('diff3',), lead=None, unterminated=False, note=False):
     """A 'diff --cc' section.  Returns (lines, model) where model is a list of
     ('line', prefix, text) / ('conflict', ours_lines, ancestral_lines, theirs_lines)."""
     path = gen.rand_path(rng, simple=True)
@@ -220,10 +220,28 @@ def gen_combined(rng, conflict=False, nparents=2, nhunks=1, nconflicts=1, styles
                 t = gen.rand_text(rng, 30, allow_empty=False, tabs_ok=False)
                 if not t.startswith(('=======', '<<<<<<<', '>>>>>>>', '|||||||')):
                     return t
-        for _region in range(max(1, nconflicts)):
+        nreg = max(1, nconflicts)
+        for _region in range(nreg):
             ours = [side_text() for _ in range(rng.randint(1, 3))]
             anc = [side_text() for _ in range(rng.randint(1, 3))]
             theirs = [side_text() for _ in range(rng.randint(1, 3))]
+            if unterminated and _region == nreg - 1:
+                # the input ends (or the next section starts) inside the last region: it is shown with what there is of it
+                cut = rng.choice(['ours', 'anc', 'theirs'])
+                body.append('++<<<<<<< HEAD')
+                if cut == 'ours':
+                    ours = ours[:rng.randint(0, len(ours))]
+                    anc, theirs = [], []
+                    body += [' +' + t for t in ours]
+                elif cut == 'anc':
+                    anc = anc[:rng.randint(0, len(anc))]
+                    theirs = []
+                    body += [' +' + t for t in ours] + ['++||||||| merged common ancestors'] + ['++' + t for t in anc]
+                else:
+                    theirs = theirs[:rng.randint(0, len(theirs))]
+                    body += [' +' + t for t in ours] + ['++||||||| merged common ancestors'] + ['++' + t for t in anc] + ['++======='] + ['+ ' + t for t in theirs]
+                model.append(('conflict', ours, anc, theirs))
+                break
             body.append('++<<<<<<< HEAD')
             body += [' +' + t for t in ours]
             if len(styles) > 1 and rng.choice(styles) == 'merge':
@@ -241,6 +259,10 @@ def gen_combined(rng, conflict=False, nparents=2, nhunks=1, nconflicts=1, styles
                     t = gen.rand_text(rng, 40, allow_empty=False, tabs_ok=False)
                 body.append('  ' + t)
                 model.append(('line', '  ', t))
+    if note and not conflict and body:
+        # a '\ No newline at end of file' note in the middle of the hunk (one parent's last line)
+        k = rng.randrange(1, len(body) + 1)
+        body = body[:k] + ['\\ No newline at end of file'] + body[k:]
     return head + earlier + [hh(len(body), 10 * nhunks)] + body, model, path
 
 
